@@ -25,7 +25,7 @@ def main():
     bad = 0
     try:
         base = os.path.join(tmp, "repo")
-        subprocess.check_call(["rsync", "-a", "--exclude", "target", "--exclude", ".git", "/repo/", base + "/"])
+        subprocess.check_call(["rsync", "-a", "--exclude", "target", "--exclude", ".git", os.environ.get("VP_RUN_REPO", "/repo").rstrip("/") + "/", base + "/"])
         for m in muts:
             edits = m.get("edits") or [m]
             saved = {}
